@@ -124,7 +124,7 @@ func c10Concurrent(t *testing.T, c *vcore.Ctx, b *world.Backend, snap0 *world.Sn
 		return
 	}
 	// quick: the eight scenarios with few scheduling points, preemption bound 1; thorough: all eleven at
-	// bound 1 (the three long ones have > 5000 schedules each) and the four shortest also at bound 2
+	// bound 1 (the three long ones have > 5000 schedules each) and the three shortest also at bound 2
 	type job struct {
 		ths   []c10cOp
 		bound int
@@ -132,7 +132,7 @@ func c10Concurrent(t *testing.T, c *vcore.Ctx, b *world.Backend, snap0 *world.Sn
 	var jobs []job
 	pairs := c10cPairs()
 	long := map[int]bool{2: true, 3: true, 9: true}
-	short := map[int]bool{4: true, 7: true, 8: true, 0: true}
+	short := map[int]bool{4: true, 7: true, 8: true}
 	for i, ths := range pairs {
 		if long[i] && !c.Thorough() {
 			continue
@@ -147,7 +147,7 @@ func c10Concurrent(t *testing.T, c *vcore.Ctx, b *world.Backend, snap0 *world.Sn
 		}
 	}
 	c.Bound("concurrent_part_scenarios", len(jobs))
-	c.Bound("concurrent_part_preemption_bound_completed", map[bool]string{false: "1", true: "1 (all scenarios), 2 (four shortest)"}[c.Thorough()])
+	c.Bound("concurrent_part_preemption_bound_completed", map[bool]string{false: "1", true: "1 (all scenarios), 2 (three shortest)"}[c.Thorough()])
 	for i, j := range jobs {
 		if !c.Mine(int64(i)) {
 			continue
